@@ -141,20 +141,21 @@ Qed.
 (* ---------------------------------------------------------------- typed strings with a rest *)
 Definition str_back (s : str) : option str := match s with [] => None | _ => Some s end.
 
-Lemma str_roundtrip : forall s rest, Z.of_nat (length s) <= 2147483647 ->
+Lemma str_roundtrip : forall s rest, utf8_valid s = true -> Z.of_nat (length s) <= 2147483647 ->
   exists bs, enc_info_string s = Ok bs /\ dec_str (bs ++ rest) = Some (str_back s, rest).
 Proof.
-  intros s rest Hl. unfold enc_info_string.
+  intros s rest Hu Hl. unfold enc_info_string.
   destruct (descriptor_roundtrip 7 (Z.of_nat (length s)) (s ++ rest)) as [d [Ed Rd]]; [reflexivity|lia|].
   rewrite Ed. cbn [bind]. eexists. split; [reflexivity|].
   unfold dec_str. rewrite <- app_assoc. rewrite Rd. cbn [Z.eqb Pos.eqb].
   destruct s as [|b s'].
   - reflexivity.
   - assert (Z.of_nat (length (b :: s')) =? 0 = false) as E0 by (cbn [length]; lia).
-    rewrite E0. rewrite Nat2Z.id. rewrite take_app by reflexivity. reflexivity.
+    rewrite E0. rewrite Nat2Z.id. rewrite take_app by reflexivity. rewrite Hu. reflexivity.
 Qed.
 
-Definition allele_ok (s : str) : Prop := s <> [] /\ Z.of_nat (length s) <= 2147483647.
+Definition allele_ok (s : str) : Prop :=
+  s <> [] /\ utf8_valid s = true /\ Z.of_nat (length s) <= 2147483647.
 
 Lemma alleles_roundtrip : forall l rest, (forall s, In s l -> allele_ok s) ->
   exists bs, enc_strs l = Ok bs /\ dec_alleles (length l) (bs ++ rest) = Some (l, rest).
@@ -162,8 +163,8 @@ Proof.
   induction l as [|s l IH]; intros rest H.
   - eexists. split; [reflexivity|]. reflexivity.
   - destruct (IH rest) as [b2 [E2 D2]]; [intros s' Hs'; apply H; right; exact Hs'|].
-    destruct (H s (or_introl eq_refl)) as [Hne Hl].
-    destruct (str_roundtrip s (b2 ++ rest) Hl) as [b1 [E1 D1]].
+    destruct (H s (or_introl eq_refl)) as [Hne [Hu Hl]].
+    destruct (str_roundtrip s (b2 ++ rest) Hu Hl) as [b1 [E1 D1]].
     cbn [enc_strs]. rewrite E1. cbn [bind]. rewrite E2. cbn [bind].
     eexists. split; [reflexivity|].
     cbn [length dec_alleles]. rewrite <- app_assoc. rewrite D1. rewrite D2.
@@ -203,7 +204,8 @@ Definition site_ok (strings contigs : smap) (s : site) (n_info n_fmt : Z) : Prop
   0 <= s_rlen s <= 2147483647 /\
   (forall b, s_qual s = Some b -> 0 <= b < 4294967296 /\ ~ reserved_nan b) /\
   (forall t, In t (s_ids s) -> t <> [] /\ ~ In semicolon t) /\
-  Z.of_nat (length (join semicolon (s_ids s))) <= 2147483647 /\
+  (utf8_valid (join semicolon (s_ids s)) = true /\
+   Z.of_nat (length (join semicolon (s_ids s))) <= 2147483647) /\
   (forall a, In a (s_ref s :: s_alts s) -> allele_ok a) /\
   Z.of_nat (length (s_alts s)) + 1 <= 65535 /\
   (forall n, In n (s_filters s) -> exists i, get_index_of strings n = Some i /\ Z.of_nat i <= 2147483647) /\
@@ -236,13 +238,13 @@ Lemma site_head_roundtrip : forall strings contigs s infos n_fmt ib,
 Proof.
   intros strings contigs s infos n_fmt ib Ws Wc Hok Ei.
   destruct Hok as [[c [Hc Hcb]] [Hp [Hr [Hq [Hids [Hidl [Hal [Hna [Hf [Hfl [Hni [Hnf Hns]]]]]]]]]]]].
-  destruct (str_roundtrip (join semicolon (s_ids s))) with (rest := @nil N) as [_x _y]. exact Hidl. clear _x _y.
+  destruct Hidl as [Hidu Hidl].
   destruct (map_names_ok strings (s_filters s) Ws Hf) as [fidx [Ef [Rf [Lf Bf]]]].
   destruct (alleles_roundtrip (s_ref s :: s_alts s)) with (rest := @nil N) as [_x _y]. exact Hal. clear _x _y.
   (* the pieces, each followed by what comes after it *)
   destruct (indices_roundtrip fidx ib Bf) as [fb [Efb Dfb]]; [rewrite Lf; exact Hfl|].
   destruct (alleles_roundtrip (s_ref s :: s_alts s) (fb ++ ib) Hal) as [ab [Eab Dab]].
-  destruct (str_roundtrip (join semicolon (s_ids s)) (ab ++ fb ++ ib) Hidl) as [idb [Eidb Didb]].
+  destruct (str_roundtrip (join semicolon (s_ids s)) (ab ++ fb ++ ib) Hidu Hidl) as [idb [Eidb Didb]].
   set (pos := match s_pos s with Some p => p - 1 | None => -1 end).
   set (qual := match s_qual s with Some b => b | None => f_missing end).
   assert (enc_site strings contigs s infos n_fmt =
